@@ -264,6 +264,27 @@ def run_parsers(chk: core.Check, ids):
                         return
         # numpy input
         arr = np.asarray(vals, dtype=np.uint32)
+        # the same integers in a non-native byte order (what library="np" reads from a file), the same array object passed twice: either refused, or
+        # the same fields both times, and the caller's array is left as it was
+        for bdt in (">u4", ">i8"):
+            be = arr.astype(bdt); keep = be.copy()
+            try:
+                o1 = fn(be, library="np"); o2 = fn(be, library="np")
+            except Exception as ex:
+                chk.hist("parser_big_endian", f"refused:{type(ex).__name__}")
+            else:
+                chk.count(len(arr), key=f"{name}-big-endian-{bdt}")
+                chk.hist("parser_big_endian", "accepted")
+                for f_, ffn in fields.items():
+                    for which, o in (("first call", o1), ("second call on the same array object", o2)):
+                        if not same(o[f_], ffn(arr)):
+                            chk.failing_input(f"{name}[{f_!r}] on a big-endian ({bdt}) numpy array, {which}", {"ids": list(map(int, arr))[:12], "dtype": bdt}, np.asarray(o[f_]).tolist()[:12], np.asarray(ffn(arr)).tolist()[:12],
+                                              "the same values for any integer dtype; calling twice with the same input gives the same result")
+                            return
+            if not np.array_equal(be.astype(np.int64), keep.astype(np.int64)) or be.dtype != keep.dtype:
+                chk.failing_input(f"{name}: the caller's big-endian ({bdt}) numpy array after the call", {"ids": list(map(int, arr))[:12], "dtype": bdt}, be.astype(np.int64).tolist()[:12], keep.astype(np.int64).tolist()[:12],
+                                  "a function of the input's values: the input still holds the same values afterwards")
+                return
         o_np = fn(arr, library="np"); o_ak = fn(ak.Array(arr), library="ak")
         for f_, ffn in fields.items():
             if not (same(o_np[f_], ffn(arr)) and ak.to_list(o_ak[f_]) == np.asarray(ffn(arr)).tolist()):
@@ -294,6 +315,68 @@ def run_parsers(chk: core.Check, ids):
                 return
 
 
+def float_arguments(chk: core.Check):
+    """mdc_gid_z_to_x / _y take a FLOAT second argument: the same (gid, z) pairs as Python scalars, NumPy arrays, Awkward arrays (flat, jagged with an
+    empty event, sliced view, missing value, mixed numpy/awkward) give the same numbers"""
+    import awkward as ak
+    import pybes3.detectors as det
+    rng = np.random.default_rng(chk.seed + 141)
+    n = 40
+    gid = rng.integers(0, 6796, n).astype(np.int64); gid[:3] = [0, 6795, 3000]
+    z = np.round(rng.uniform(-120, 120, n), 3); z[:4] = [0.75, -20.9, 33.3, 0.0]            # non-integral values: a cast to an integer type shows
+    counts = [3, 0, 5, n - 8]
+    for ax in ("x", "y"):
+        fn = getattr(det, f"mdc_gid_z_to_{ax}")
+        name = f"mdc_gid_z_to_{ax}"
+        ref = np.array([fn(int(g), float(v)) for g, v in zip(gid, z)], dtype=float)
+        def cmp(label, got_flat, idx=slice(None)):
+            chk.count(len(ref[idx]), key=f"{name}-{label}")
+            chk.hist("float_arg_layout", label)
+            got_flat = np.asarray(got_flat, dtype=float)
+            if got_flat.shape != ref[idx].shape or not np.allclose(got_flat, ref[idx], rtol=0, atol=1e-9):
+                i = 0 if got_flat.shape != ref[idx].shape else int(np.nonzero(~np.isclose(got_flat, ref[idx], rtol=0, atol=1e-9))[0][0])
+                chk.failing_input(f"{name}(gid, z) with {label}", {"gid": int(gid[idx][i]), "z": float(z[idx][i]), "representation": label},
+                                  float(got_flat[i]) if got_flat.shape == ref[idx].shape else str(got_flat.shape), float(ref[idx][i]),
+                                  "the same values whether called with Python scalars, NumPy arrays or Awkward arrays of any nesting")
+                return False
+            return True
+        jg, jz = ak.unflatten(ak.Array(gid), counts), ak.unflatten(ak.Array(z), counts)
+        cases = [("numpy arrays", lambda: fn(gid, z), slice(None)),
+                 ("numpy int32 gid + float32-exact z", lambda: fn(gid.astype(np.int32), z.astype(np.float64)), slice(None)),
+                 ("flat awkward arrays", lambda: fn(ak.Array(gid), ak.Array(z)), slice(None)),
+                 ("awkward gid + numpy z", lambda: fn(ak.Array(gid), z), slice(None)),
+                 ("numpy gid + awkward z", lambda: fn(gid, ak.Array(z)), slice(None)),
+                 ("jagged awkward arrays", lambda: ak.flatten(fn(jg, jz)), slice(None)),
+                 ("sliced jagged view [2:]", lambda: ak.flatten(fn(jg[2:], jz[2:])), slice(3, None)),
+                 ("jagged awkward gid + python float z", None, None),
+                 ("depth-3 awkward arrays", lambda: ak.flatten(fn(ak.unflatten(jg, [1, 3]), ak.unflatten(jz, [1, 3])), axis=None), slice(None))]
+        for label, call, idx in cases:
+            if call is None:
+                got = ak.flatten(fn(jg, 12.25))
+                want = np.array([fn(int(g), 12.25) for g in gid])
+                chk.count(n, key=f"{name}-{label}")
+                if not np.allclose(ak.to_numpy(got), want, rtol=0, atol=1e-9):
+                    i = int(np.nonzero(~np.isclose(ak.to_numpy(got), want, rtol=0, atol=1e-9))[0][0])
+                    chk.failing_input(f"{name}(gid, z) with {label}", {"gid": int(gid[i]), "z": 12.25}, float(got[i]), float(want[i]), "the same values whether called with Python scalars, NumPy arrays or Awkward arrays")
+                    return
+                continue
+            try:
+                got = call()
+            except Exception as ex:
+                chk.failing_input(f"{name}(gid, z) with {label}", {"gid": gid[:5].tolist(), "z": z[:5].tolist()}, f"{type(ex).__name__}: {str(ex)[:200]}", ref[:5].tolist(), "every container kind is accepted")
+                return
+            if not cmp(label, ak.to_numpy(got) if isinstance(got, ak.Array) else got, idx):
+                return
+        # a missing value stays missing, the others keep their values
+        m = np.arange(n) % 4 == 1
+        got = ak.to_list(fn(ak.mask(ak.Array(gid), ~m), ak.Array(z)))
+        chk.count(n, key=f"{name}-masked")
+        for i in range(n):
+            if (got[i] is None) != bool(m[i]) or (got[i] is not None and abs(got[i] - ref[i]) > 1e-9):
+                chk.failing_input(f"{name}(gid, z) with a gid array holding missing values", {"gid": None if m[i] else int(gid[i]), "z": float(z[i])}, got[i], None if m[i] else float(ref[i]), "missing stays missing, valid entries keep their value")
+                return
+
+
 def main(chk: core.Check) -> int:
     thorough = chk.tier == "thorough"
     chk.level = "other"
@@ -314,6 +397,8 @@ def main(chk: core.Check) -> int:
         ids = run_functions(chk, thorough)
         if ids is not None:
             run_parsers(chk, ids)
+        if not chk.failing:
+            float_arguments(chk)
         if not chk.failing:
             # dtype independence along a call history (private numba cache, child process): kernels first compiled for int64, a geometry table
             # handed out and edited by the caller, then the same lookups with dtypes that need a NEW compiled loop (uint64) - every dtype must
